@@ -52,7 +52,7 @@ type ControlMessage struct {
 func NewHSMSControlMessage(header []byte) HSMSMessage {
 	headerCopy := make([]byte, 10)
 	for i, b := range header {
-		if i > 10 {
+		if i >= 10 {
 			break
 		}
 		headerCopy[i] = b
